@@ -5,6 +5,7 @@ From SQ Require model.FramePerm proofs.FramePermProofs.
 From SQ Require model.FlowRecv model.FlowRecvSpec proofs.FlowRecvProofs.
 From SQ Require model.StreamCtl model.StreamCtlSpec proofs.StreamCtlProofs.
 From SQ Require model.FrameVal proofs.FrameValProofs.
+From SQ Require model.CryptoRecv proofs.CryptoRecvProofs.
 Local Open Scope N_scope.
 
 (* ---- component "matrix": frame kind x packet-number space ---- *)
@@ -172,6 +173,34 @@ Proof. split; vm_compute; reflexivity. Qed.
 Theorem C04_fv_judge_model : forall c, FrameVal.fv_judge c (FrameVal.fv_run c) = true.
 Proof. exact FrameValProofs.fv_judge_run. Qed.
 
+(* ---- component "crypto": the CRYPTO receive buffer ---- *)
+
+(* the limit the source declares is 128 KiB (at least the 4096 bytes RFC 9000 7.5 requires), and
+   the error code is CRYPTO_BUFFER_EXCEEDED = 0x0d *)
+Theorem C04_crypto_limit_is_128k :
+  crypto_rx_limit = 131072 /\ 4096 <= crypto_rx_limit /\ code_crypto_buffer_exceeded = 13.
+Proof. exact CryptoRecvProofs.limit_is_128k. Qed.
+
+(* a CRYPTO frame is rejected (CRYPTO_BUFFER_EXCEEDED) exactly when it reaches beyond 2^62-1 or
+   beyond consumed + limit *)
+Theorem C04_crypto_rejects_exactly : forall s off len,
+  CryptoRecv.on_crypto s off len = None <->
+  (varint_max < off + len \/ CryptoRecv.ccon s + CryptoRecv.LIMIT < off + len).
+Proof. exact CryptoRecvProofs.crypto_rejects_exactly. Qed.
+
+(* for every sequence of CRYPTO frames and TLS reads: the received-but-not-consumed span, every
+   buffered byte, and the in-order bytes waiting for TLS stay within the limit *)
+Theorem C04_crypto_buffer_bound : forall ops,
+  let s := CryptoRecvProofs.cexec ops in
+  CryptoRecv.cmax s - CryptoRecv.ccon s <= CryptoRecv.LIMIT
+  /\ Forall (fun x => snd (fst x) <= CryptoRecv.ccon s + CryptoRecv.LIMIT /\ fst (fst x) < snd (fst x)) (CryptoRecv.csegs s)
+  /\ CryptoRecv.buffered_in_order s <= CryptoRecv.LIMIT.
+Proof. exact CryptoRecvProofs.crypto_buffer_bound. Qed.
+
+(* the executable judgement (from the operations and the answers alone) accepts every run of the model *)
+Theorem C04_crypto_judge_model : forall c, CryptoRecv.cjudge c (CryptoRecv.crun c) = true.
+Proof. exact CryptoRecvProofs.cjudge_run. Qed.
+
 Print Assumptions C04_frame_matrix_is_rfc.
 Print Assumptions C04_frame_matrix_rows.
 Print Assumptions C04_server_rejects_is_rfc.
@@ -187,3 +216,7 @@ Print Assumptions C04_rx_judge_strict_refuted.
 Print Assumptions C04_reset_rejects_exactly.
 Print Assumptions C04_reset_below_received_accepted.
 Print Assumptions C04_fv_judge_model.
+Print Assumptions C04_crypto_limit_is_128k.
+Print Assumptions C04_crypto_rejects_exactly.
+Print Assumptions C04_crypto_buffer_bound.
+Print Assumptions C04_crypto_judge_model.
